@@ -866,9 +866,24 @@ theorem foldl_purgeStep (inp : Input) (nonTop : List Rec) (keys : List Nat) (acc
       · simp [hg, Option.filter_some]
       · simp [hg, Option.filter_some]
 
+/-- the purge loop without the `activeCount == 0` stop -/
+def purgedRaw (inp : Input) : List Rec :=
+  (sortKeys inp.lastActive).foldl (purgeStep inp (runLoop inp).nonTop) []
+
+theorem purged_eq (inp : Input) :
+    purged inp = if (runLoop inp).cnt = 0 then [] else purgedRaw inp := rfl
+
+theorem purged_sub {inp : Input} {r : Rec} (h : r ∈ purged inp) :
+    r ∈ purgedRaw inp ∧ (runLoop inp).cnt ≠ 0 := by
+  rw [purged_eq] at h
+  split at h
+  · cases h
+  · rename_i hc; exact ⟨h, hc⟩
+
 theorem mem_purged {inp : Input} {r : Rec} (hr : r ∈ purged inp) :
     r ∈ (runLoop inp).nonTop ∧ r.addr ∈ inp.lastActive ∧ guarded inp r.addr = false := by
-  unfold purged at hr
+  have hr := (purged_sub hr).1
+  unfold purgedRaw at hr
   rw [foldl_purgeStep] at hr
   simp only [List.nil_append, List.mem_filterMap] at hr
   obtain ⟨a, ha, e⟩ := hr
@@ -886,7 +901,10 @@ theorem mem_purged {inp : Input} {r : Rec} (hr : r ∈ purged inp) :
     · cases e
 
 theorem purged_addr_nodup (inp : Input) : ((purged inp).map (·.addr)).Nodup := by
-  unfold purged
+  rw [purged_eq]
+  split
+  · simp
+  unfold purgedRaw
   rw [foldl_purgeStep]
   simp only [List.nil_append]
   have hk := sortKeys_nodup inp.lastActive
@@ -1584,7 +1602,243 @@ theorem elect_tm_ok (addrOf : Nat → Nat) (inp : Input) (s : TM.VSet) (h : 1 < 
     · exact h1 (List.mem_map.mpr ⟨r, hr, by rw [← e, e']⟩)
     · exact h2 (List.mem_map.mpr ⟨r, hr, by rw [← e, e']⟩)
 
-/-! ### D.2 several blocks -/
+/-! ### D.2 bookkeeping of the pop loop: status writes and deletions -/
+
+/-- what the loop state says about its own status writes and deletions -/
+structure Book (inp : Input) (st : Loop) : Prop where
+  wh : ∀ p ∈ st.statusW, p.2.height = inp.height
+  wa : ∀ p ∈ st.statusW, (p.2.active = true → ∃ r ∈ st.elected, r.addr = p.1) ∧
+        (p.2.active = false → ∃ r ∈ st.nonTop, r.addr = p.1)
+  el : ∀ r ∈ st.elected, (∃ p ∈ st.statusW, p.1 = r.addr) ∨
+        (∃ x, alookup r.addr inp.status = some x ∧ x.active = true)
+  del : ∀ a ∈ st.deleted, ∃ r ∈ st.nonTop, r.addr = a ∧ r.power ≤ 0 ∧ a ∉ inp.lastActive ∧
+        ∃ x, alookup a inp.status = some x ∧ x.active = false ∧ x.height + 2 < inp.height
+
+theorem popStep_some (inp : Input) (st : Loop) (it : Item) (r : Rec)
+    (hf : findRec inp.recs it.val = some r) :
+    ∃ upd need : Bool,
+      need = (match alookup r.addr inp.status with
+        | none => true
+        | some s => s.active != upd) ∧
+      popStep inp st it =
+        { cnt := if upd then st.cnt + 1 else st.cnt
+          elected := if upd then st.elected ++ [r] else st.elected
+          nonTop := if upd then st.nonTop else r :: st.nonTop
+          statusW := if need then st.statusW ++ [(r.addr, ⟨upd, inp.height⟩)] else st.statusW
+          deleted := if deletable inp r need then st.deleted ++ [r.addr] else st.deleted } := by
+  unfold popStep
+  rw [hf]
+  exact ⟨_, _, rfl, rfl⟩
+
+theorem book_step (inp : Input) (st : Loop) (it : Item) (hb : Book inp st) : Book inp (popStep inp st it) := by
+  cases hf : findRec inp.recs it.val with
+  | none =>
+    have e : popStep inp st it = st := by unfold popStep; rw [hf]
+    rw [e]; exact hb
+  | some r =>
+    obtain ⟨upd, need, hn, e⟩ := popStep_some inp st it r hf
+    rw [e]
+    constructor
+    · -- heights
+      intro p hp
+      dsimp only at hp
+      by_cases hneed : need = true
+      · simp only [hneed, if_true, List.mem_append, List.mem_singleton] at hp
+        rcases hp with hp | hp
+        · exact hb.wh p hp
+        · rw [hp]
+      · simp only [hneed] at hp; exact hb.wh p hp
+    · -- who a write belongs to
+      intro p hp
+      dsimp only at hp ⊢
+      have old : p ∈ st.statusW → (p.2.active = true → ∃ r' ∈ (if upd = true then st.elected ++ [r] else st.elected), r'.addr = p.1) ∧
+          (p.2.active = false → ∃ r' ∈ (if upd = true then st.nonTop else r :: st.nonTop), r'.addr = p.1) := by
+        intro hp'
+        obtain ⟨w1, w2⟩ := hb.wa p hp'
+        constructor
+        · intro ha
+          obtain ⟨r', hr', e⟩ := w1 ha
+          refine ⟨r', ?_, e⟩
+          split
+          · exact List.mem_append_left _ hr'
+          · exact hr'
+        · intro ha
+          obtain ⟨r', hr', e⟩ := w2 ha
+          refine ⟨r', ?_, e⟩
+          split
+          · exact hr'
+          · exact List.mem_cons_of_mem _ hr'
+      by_cases hneed : need = true
+      · simp only [hneed, if_true, List.mem_append, List.mem_singleton] at hp
+        rcases hp with hp | hp
+        · exact old hp
+        · rw [hp]
+          constructor
+          · intro ha
+            have : upd = true := ha
+            simp only [this, if_true]
+            exact ⟨r, List.mem_append_right _ (List.mem_singleton.mpr rfl), rfl⟩
+          · intro ha
+            have : upd = false := ha
+            simp only [this]
+            exact ⟨r, List.mem_cons_self .., rfl⟩
+      · simp only [hneed] at hp; exact old hp
+    · -- elected records have an active status afterwards
+      intro r' hr'
+      dsimp only at hr' ⊢
+      have old : r' ∈ st.elected → (∃ p ∈ (if need = true then st.statusW ++ [(r.addr, ⟨upd, inp.height⟩)] else st.statusW), p.1 = r'.addr) ∨
+          (∃ x, alookup r'.addr inp.status = some x ∧ x.active = true) := by
+        intro h'
+        rcases hb.el r' h' with ⟨p, hp, e⟩ | h2
+        · refine Or.inl ⟨p, ?_, e⟩
+          split
+          · exact List.mem_append_left _ hp
+          · exact hp
+        · exact Or.inr h2
+      by_cases hupd : upd = true
+      · simp only [hupd, if_true, List.mem_append, List.mem_singleton] at hr'
+        rcases hr' with h' | h'
+        · exact old h'
+        · rw [h']
+          by_cases hneed : need = true
+          · refine Or.inl ⟨(r.addr, ⟨upd, inp.height⟩), ?_, rfl⟩
+            simp [hneed]
+          · right
+            cases hs : alookup r.addr inp.status with
+            | none => rw [hs] at hn; exact absurd hn hneed
+            | some x =>
+              rw [hs] at hn
+              refine ⟨x, rfl, ?_⟩
+              have hn' : need = (x.active != upd) := hn
+              have : (x.active != upd) = false := by rw [← hn']; simpa using hneed
+              simp only [bne_eq_false_iff_eq] at this
+              rw [this, hupd]
+      · simp only [hupd] at hr'; exact old hr'
+    · -- deletions
+      intro a ha
+      dsimp only at ha ⊢
+      have old : a ∈ st.deleted → ∃ r' ∈ (if upd = true then st.nonTop else r :: st.nonTop), r'.addr = a ∧ r'.power ≤ 0 ∧
+          a ∉ inp.lastActive ∧ ∃ x, alookup a inp.status = some x ∧ x.active = false ∧ x.height + 2 < inp.height := by
+        intro h'
+        obtain ⟨r', hr', rest⟩ := hb.del a h'
+        refine ⟨r', ?_, rest⟩
+        split
+        · exact hr'
+        · exact List.mem_cons_of_mem _ hr'
+      by_cases hd : deletable inp r need = true
+      · simp only [hd, if_true, List.mem_append, List.mem_singleton] at ha
+        rcases ha with h' | h'
+        · exact old h'
+        · -- the deletion test says: inactive, no update needed, so not elected now
+          unfold deletable settled at hd
+          cases hs : alookup r.addr inp.status with
+          | none => rw [hs] at hd; simp at hd
+          | some x =>
+            rw [hs] at hd hn
+            simp only [Bool.and_eq_true, decide_eq_true_eq, Bool.not_eq_true', List.contains_eq_mem,
+              decide_eq_false_iff_not] at hd
+            obtain ⟨⟨⟨hpw, _⟩, hla⟩, ⟨hact, hnn⟩, hh⟩ := hd
+            have hupd : upd = false := by
+              have hn' : need = (x.active != upd) := hn
+              have : (x.active != upd) = false := by rw [← hn']; exact hnn
+              simp only [bne_eq_false_iff_eq] at this
+              rw [← this]; exact hact
+            simp only [hupd]
+            refine ⟨r, List.mem_cons_self .., h'.symm, hpw, by rw [h']; exact hla, x, by rw [h']; exact hs, hact, by omega⟩
+      · simp only [hd] at ha; exact old ha
+
+theorem book_foldl (inp : Input) (l : List Item) (st : Loop) (hb : Book inp st) :
+    Book inp (l.foldl (popStep inp) st) := by
+  induction l generalizing st with
+  | nil => exact hb
+  | cons it t ih => exact ih _ (book_step inp st it hb)
+
+theorem book_runLoop (inp : Input) : Book inp (runLoop inp) := by
+  unfold runLoop
+  apply book_foldl
+  constructor <;> intro x hx <;> cases hx
+
+theorem alookup_applyWrites_cases {α : Type} (w : List (Nat × α)) (m : List (Nat × α)) (a : Nat) :
+    (alookup a (applyWrites m w) = alookup a m ∧ ∀ p ∈ w, p.1 ≠ a) ∨
+    (∃ p ∈ w, p.1 = a ∧ alookup a (applyWrites m w) = some p.2) := by
+  unfold applyWrites
+  induction w generalizing m with
+  | nil => exact Or.inl ⟨rfl, fun p hp => by cases hp⟩
+  | cons q t ih =>
+    simp only [List.foldl_cons]
+    rcases ih (upsert m q.1 q.2) with ⟨e, hno⟩ | ⟨p, hp, e1, e2⟩
+    · rw [alookup_upsert] at e
+      by_cases hq : a = q.1
+      · refine Or.inr ⟨q, List.mem_cons_self .., hq.symm, ?_⟩
+        rw [e]; simp [hq]
+      · refine Or.inl ⟨by rw [e]; simp [hq], ?_⟩
+        intro p hp
+        rcases List.mem_cons.mp hp with rfl | hp'
+        · exact fun x => hq x.symm
+        · exact hno p hp'
+    · exact Or.inr ⟨p, List.mem_cons_of_mem _ hp, e1, e2⟩
+
+/-- (S2) a status after the block is the old one or was written with this block's height -/
+theorem status_after_cases (inp : Input) (h : 1 < inp.height) (a : Nat) :
+    alookup a (applyWrites inp.status (elect inp).statusW) = alookup a inp.status ∨
+    ∃ x, alookup a (applyWrites inp.status (elect inp).statusW) = some x ∧ x.height = inp.height := by
+  have e : (elect inp).statusW = (runLoop inp).statusW := by
+    have : ¬ inp.height ≤ 1 := by omega
+    unfold elect; simp [this]
+  rw [e]
+  rcases alookup_applyWrites_cases (runLoop inp).statusW inp.status a with ⟨e1, _⟩ | ⟨p, hp, _, e2⟩
+  · exact Or.inl e1
+  · exact Or.inr ⟨p.2, e2, (book_runLoop inp).wh p hp⟩
+
+/-- (S1) an elected record has an active status after the block -/
+theorem status_after_elected (inp : Input) (h : 1 < inp.height) (hn : (inp.recs.map (·.addr)).Nodup)
+    (r : Rec) (hr : r ∈ electedRecs inp) :
+    ∃ x, alookup r.addr (applyWrites inp.status (elect inp).statusW) = some x ∧ x.active = true := by
+  have e : (elect inp).statusW = (runLoop inp).statusW := by
+    have : ¬ inp.height ≤ 1 := by omega
+    unfold elect; simp [this]
+  rw [e]
+  have B := book_runLoop inp
+  have hsplit := runLoop_split inp hn
+  have hall : (((runLoop inp).elected ++ (runLoop inp).nonTop).map (·.addr)).Nodup :=
+    ((hsplit.map (·.addr)).nodup_iff).mpr hn
+  rw [List.map_append, List.nodup_append] at hall
+  have hr' : r ∈ (runLoop inp).elected := by rw [runLoop_elected]; exact hr
+  rcases alookup_applyWrites_cases (runLoop inp).statusW inp.status r.addr with ⟨e1, hno⟩ | ⟨p, hp, e1, e2⟩
+  · rcases B.el r hr' with ⟨p, hp, ep⟩ | ⟨x, hx, ha⟩
+    · exact absurd ep (hno p hp)
+    · exact ⟨x, by rw [e1]; exact hx, ha⟩
+  · refine ⟨p.2, e2, ?_⟩
+    cases hact : p.2.active with
+    | true => rfl
+    | false =>
+      exfalso
+      obtain ⟨r', hr2, e'⟩ := (B.wa p hp).2 hact
+      exact hall.2.2 r.addr (List.mem_map.mpr ⟨r, hr', rfl⟩) r'.addr (List.mem_map.mpr ⟨r', hr2, rfl⟩) (by rw [e', e1])
+
+/-- (Del) what a deletion says about the validator -/
+theorem deleted_facts (inp : Input) (hn : (inp.recs.map (·.addr)).Nodup) (a : Nat)
+    (ha : a ∈ (elect inp).deleted) :
+    a ∉ inp.lastActive ∧ a ∉ (electedRecs inp).map (·.addr) ∧
+    (∃ r ∈ inp.recs, r.addr = a ∧ r.power ≤ 0) ∧
+    ∃ x, alookup a inp.status = some x ∧ x.active = false ∧ x.height + 2 < inp.height := by
+  by_cases h : 1 < inp.height
+  · have e : (elect inp).deleted = (runLoop inp).deleted := by
+      have : ¬ inp.height ≤ 1 := by omega
+      unfold elect; simp [this]
+    rw [e] at ha
+    obtain ⟨r, hr, era, hpw, hla, hx⟩ := (book_runLoop inp).del a ha
+    have hsplit := runLoop_split inp hn
+    have hall : (((runLoop inp).elected ++ (runLoop inp).nonTop).map (·.addr)).Nodup :=
+      ((hsplit.map (·.addr)).nodup_iff).mpr hn
+    rw [List.map_append, List.nodup_append] at hall
+    refine ⟨hla, ?_, ⟨r, runLoop_sound inp r (List.mem_append_right _ hr), era, hpw⟩, hx⟩
+    rw [← runLoop_elected]
+    intro hm
+    exact hall.2.2 a hm r.addr (List.mem_map.mpr ⟨r, hr, rfl⟩) era.symm
+  · rw [elect_low inp (by omega)] at ha; cases ha
+
+/-! ### D.3 several blocks -/
 
 theorem alookup_applyWrites_const {α : Type} (l : List Rec) (v : α) (m : List (Nat × α)) (a : Nat) :
     alookup a (applyWrites m (l.map fun r => (r.addr, v))) =
@@ -1601,27 +1855,45 @@ theorem alookup_applyWrites_const {α : Type} (l : List Rec) (v : α) (m : List 
       · simp [h2]
       · simp [h1, h2]
 
-/-- the invariant that ties the application's purge bookkeeping to Tendermint's delayed sets:
-    a validator that is in an earlier of the three sets but not in the next one was purged in the
-    block that removed it -/
-structure Inv (s : Chain) : Prop where
-  next_pos : 1 ≤ s.next
+/-- the invariant of application + Tendermint between two blocks:
+    * `i1`–`i3`: a validator that is in an earlier of the three pending sets but not in the next one
+      was purged in the block that removed it (ties the purge heights to the +2 delay),
+    * `addrs`/`bound`/`ktype`: every committed record carries the ed25519 key of its own address,
+    * `m1`/`m2`: a validator on its way into the set has an active (or just flipped) status,
+    * `recd`: every member of a pending set has a record. -/
+structure Inv (addrOf : Nat → Nat) (s : Chain) : Prop where
+  next_ge : 2 ≤ s.next
   i1 : ∀ a, (alookup a s.vC).isSome → (alookup a s.vN).isNone → alookup a s.purge = some (s.next - 1)
   i2 : ∀ a, (alookup a s.vP).isSome → (alookup a s.vC).isNone → ∃ p, alookup a s.purge = some p ∧ s.next - 2 ≤ p
   i3 : ∀ a p, alookup a s.purge = some p → 0 < p ∧ p ≤ s.next - 1
   i5 : ∀ x ∈ s.vN, 0 ≤ x.2
+  addrs : (s.recs.map (·.addr)).Nodup
+  bound : Bound addrOf s.recs
+  ktype : ∀ r ∈ s.recs, r.ktype = 0
+  m1 : ∀ a, (alookup a s.vN).isSome → (alookup a s.vC).isNone →
+        ∃ x, alookup a s.status = some x ∧ x.active = true
+  m2 : ∀ a, (alookup a s.vC).isSome → (alookup a s.vP).isNone →
+        ∃ x, alookup a s.status = some x ∧ (x.active = true ∨ s.next - 1 ≤ x.height)
+  recd : ∀ a, ((alookup a s.vP).isSome ∨ (alookup a s.vC).isSome ∨ (alookup a s.vN).isSome) →
+        ∃ r ∈ s.recs, r.addr = a
 
-/-- what a block must satisfy for the acceptance theorem (each clause is a hypothesis the code
-    does not establish by itself; see Props/C10.lean) -/
+/-- what a block must satisfy.  `addrs`, `persist`, `keys` are facts about the transaction
+    handlers (records are keyed by address; no handler deletes a record; a new record comes from a
+    STAKE, whose key is the ed25519 key of the validator address, and no writer changes the key of
+    an existing record) — the engine monitors them on every block.  `minpos` and `total` are the
+    two hypotheses that remain about the data. -/
 structure BlockOK (addrOf : Nat → Nat) (s : Chain) (b : BlockIn) : Prop where
-  addrs : (b.recs.map (·.addr)).Nodup
-  bound : Bound addrOf b.recs
-  ktype : ∀ r ∈ b.recs, r.ktype = 0
+  addrs : (b.after.map (·.addr)).Nodup
+  persist : ∀ r ∈ s.recs, ∃ r' ∈ b.after, r'.addr = r.addr
+  keys : ∀ r' ∈ b.after, (∃ r ∈ s.recs, r.addr = r'.addr ∧ r.pub = r'.pub ∧ r.ktype = r'.ktype) ∨
+          (addrOf r'.pub = r'.addr ∧ r'.ktype = 0)
   minpos : 0 < b.minSelf
-  someone : 1 < s.next → 0 < (elect (inputOf s b)).activeCount
   total : TM.total s.vN + TM.sumPow (tmChanges addrOf (elect (inputOf s b)).updates) ≤ TM.maxTotal
 
 theorem isNone_of_not_isSome {α : Type} {o : Option α} (h : ¬ o.isSome = true) : o.isNone = true := by
+  cases o <;> simp at h ⊢
+
+theorem not_isSome_of_isNone {α : Type} {o : Option α} (h : o.isNone = true) : ¬ o.isSome = true := by
   cases o <;> simp at h ⊢
 
 theorem guarded_false {inp : Input} {a : Nat} (h : guarded inp a = false) :
@@ -1630,8 +1902,9 @@ theorem guarded_false {inp : Input} {a : Nat} (h : guarded inp a = false) :
   simpa using h
 
 /-- every validator whose removal is emitted is a member of the set the list is applied to -/
-theorem purged_in_next_set (s : Chain) (b : BlockIn) (hI : Inv s) (h : 1 < s.next)
+theorem purged_in_next_set (addrOf : Nat → Nat) (s : Chain) (b : BlockIn) (hI : Inv addrOf s)
     (r : Rec) (hr : r ∈ purged (inputOf s b)) : (alookup r.addr s.vN).isSome := by
+  have h := hI.next_ge
   obtain ⟨_, hla, hg⟩ := mem_purged hr
   have hP : (alookup r.addr s.vP).isSome := TM.alookup_isSome_iff.mpr hla
   by_cases hN : (alookup r.addr s.vN).isSome = true
@@ -1651,101 +1924,225 @@ theorem purged_in_next_set (s : Chain) (b : BlockIn) (hI : Inv s) (h : 1 < s.nex
       simp at hg'
       omega
 
+theorem elect_nobody (inp : Input) (h : 1 < inp.height) (hE : electedRecs inp = []) :
+    purged inp = [] ∧ (elect inp).updates = [] := by
+  have hc : (runLoop inp).cnt = 0 := by rw [runLoop_cnt, hE]; rfl
+  have hp : purged inp = [] := by rw [purged_eq]; simp [hc]
+  refine ⟨hp, ?_⟩
+  rw [elect_updates inp h, hE, hp]; rfl
+
+/-- the list of one block in front of the pending set: accepted, and the new set described, with
+    or without anybody elected -/
+theorem elect_tm_ok' (addrOf : Nat → Nat) (inp : Input) (s : TM.VSet) (h : 1 < inp.height)
+    (hn : (inp.recs.map (·.addr)).Nodup) (hb : Bound addrOf inp.recs)
+    (hkt : ∀ r ∈ inp.recs, r.ktype = 0) (hmin : 0 < inp.minSelf)
+    (hin : ∀ r ∈ purged inp, (alookup r.addr s).isSome)
+    (hs : ∀ x ∈ s, 0 ≤ x.2)
+    (htot : TM.total s + TM.sumPow (tmChanges addrOf (elect inp).updates) ≤ TM.maxTotal) :
+    ∃ s', TM.apply s (tmChanges addrOf (elect inp).updates) = .ok s' ∧
+      (∀ r ∈ purged inp, alookup r.addr s' = none) ∧
+      (∀ r ∈ electedRecs inp, alookup r.addr s' = some r.power) ∧
+      (∀ k, k ∉ (electedRecs inp).map (·.addr) → k ∉ (purged inp).map (·.addr) → alookup k s' = alookup k s) ∧
+      (∀ x ∈ s', 0 ≤ x.2) := by
+  by_cases hE : electedRecs inp = []
+  · obtain ⟨hp, hu⟩ := elect_nobody inp h hE
+    refine ⟨s, ?_, ?_, ?_, fun _ _ _ => rfl, hs⟩
+    · rw [hu]; simp [tmChanges, TM.apply, TM.validate]
+    · rw [hp]; intro r hr; cases hr
+    · rw [hE]; intro r hr; cases hr
+  · have hne : 0 < (elect inp).activeCount := by
+      rw [elect_activeCount inp h]
+      cases hl : electedRecs inp with
+      | nil => exact absurd hl hE
+      | cons _ _ => simp
+    exact elect_tm_ok addrOf inp s h hn hb hkt hmin hne hin hs htot
+
 /-- MULTI BLOCK, one step: from a state satisfying the invariant a block that meets the side
     conditions is accepted by Tendermint and the invariant holds again -/
-theorem step_ok (addrOf : Nat → Nat) (s : Chain) (b : BlockIn) (hI : Inv s) (hB : BlockOK addrOf s b) :
-    ∃ s', step addrOf s b = .ok s' ∧ Inv s' ∧ s'.next = s.next + 1 ∧ s'.vP = s.vC ∧ s'.vC = s.vN ∧
-      (s.next ≤ 1 → s'.vN = s.vN) ∧
-      (1 < s.next →
-        (∀ r ∈ purged (inputOf s b), alookup r.addr s'.vN = none) ∧
-        (∀ r ∈ electedRecs (inputOf s b), alookup r.addr s'.vN = some r.power) ∧
-        (∀ k, k ∉ (electedRecs (inputOf s b)).map (·.addr) → k ∉ (purged (inputOf s b)).map (·.addr) →
-          alookup k s'.vN = alookup k s.vN) ∧
-        s'.purge = applyWrites s.purge ((purged (inputOf s b)).map fun r => (r.addr, s.next))) := by
-  by_cases h : 1 < s.next
-  · obtain ⟨v, ok, a, bb, c, d⟩ := elect_tm_ok addrOf (inputOf s b) s.vN h hB.addrs hB.bound hB.ktype hB.minpos
-      (hB.someone h) (purged_in_next_set s b hI h) hI.i5 hB.total
-    have hpw : (elect (inputOf s b)).purgeW = (purged (inputOf s b)).map fun r => (r.addr, s.next) :=
-      elect_purgeW (inputOf s b) h
-    refine ⟨{ next := s.next + 1, vP := s.vC, vC := s.vN, vN := v
-              purge := applyWrites s.purge (elect (inputOf s b)).purgeW
-              status := applyWrites s.status (elect (inputOf s b)).statusW },
-      by unfold step; simp only [ok], ?_, rfl, rfl, rfl, fun h' => by omega,
-      fun _ => ⟨a, bb, c, by show applyWrites s.purge (elect (inputOf s b)).purgeW = _; rw [hpw]⟩⟩
-    have hpl : ∀ k, alookup k (applyWrites s.purge (elect (inputOf s b)).purgeW) =
-        if k ∈ (purged (inputOf s b)).map (·.addr) then some s.next else alookup k s.purge := by
-      intro k; rw [hpw]; exact alookup_applyWrites_const _ _ _ _
-    constructor
-    · show 1 ≤ s.next + 1; omega
-    · -- i1
-      intro k hk1 hk2
-      show alookup k (applyWrites s.purge (elect (inputOf s b)).purgeW) = some (s.next + 1 - 1)
-      rw [hpl]
+theorem step_ok (addrOf : Nat → Nat) (s : Chain) (b : BlockIn) (hI : Inv addrOf s) (hB : BlockOK addrOf s b) :
+    ∃ s', step addrOf s b = .ok s' ∧ Inv addrOf s' ∧ s'.next = s.next + 1 ∧ s'.vP = s.vC ∧ s'.vC = s.vN ∧
+      s'.recs = recsAfter b (elect (inputOf s b)).deleted ∧
+      (∀ r ∈ purged (inputOf s b), alookup r.addr s'.vN = none) ∧
+      (∀ r ∈ electedRecs (inputOf s b), alookup r.addr s'.vN = some r.power) ∧
+      (∀ k, k ∉ (electedRecs (inputOf s b)).map (·.addr) → k ∉ (purged (inputOf s b)).map (·.addr) →
+        alookup k s'.vN = alookup k s.vN) ∧
+      s'.purge = applyWrites s.purge ((purged (inputOf s b)).map fun r => (r.addr, s.next)) := by
+  have h : 1 < (inputOf s b).height := by show 1 < s.next; have := hI.next_ge; omega
+  have hnx : 1 < s.next := h
+  obtain ⟨v, ok, a, bb, c, d⟩ := elect_tm_ok' addrOf (inputOf s b) s.vN h hI.addrs hI.bound hI.ktype hB.minpos
+    (purged_in_next_set addrOf s b hI) hI.i5 hB.total
+  have hpw : (elect (inputOf s b)).purgeW = (purged (inputOf s b)).map fun r => (r.addr, s.next) :=
+    elect_purgeW (inputOf s b) h
+  refine ⟨{ next := s.next + 1, vP := s.vC, vC := s.vN, vN := v
+            purge := applyWrites s.purge (elect (inputOf s b)).purgeW
+            status := applyWrites s.status (elect (inputOf s b)).statusW
+            recs := recsAfter b (elect (inputOf s b)).deleted },
+    by unfold step; simp only [ok], ?_, rfl, rfl, rfl, rfl, a, bb, c,
+    by show applyWrites s.purge (elect (inputOf s b)).purgeW = _; rw [hpw]⟩
+  have hpl : ∀ k, alookup k (applyWrites s.purge (elect (inputOf s b)).purgeW) =
+      if k ∈ (purged (inputOf s b)).map (·.addr) then some s.next else alookup k s.purge := by
+    intro k; rw [hpw]; exact alookup_applyWrites_const _ _ _ _
+  -- a new member of the pending set is an elected record
+  have newMember : ∀ k, (alookup k v).isSome → (alookup k s.vN).isNone →
+      ∃ r ∈ electedRecs (inputOf s b), r.addr = k := by
+    intro k hk1 hk2
+    by_cases he : k ∈ (electedRecs (inputOf s b)).map (·.addr)
+    · obtain ⟨r, hr, e⟩ := List.mem_map.mp he; exact ⟨r, hr, e⟩
+    · exfalso
       by_cases hp : k ∈ (purged (inputOf s b)).map (·.addr)
-      · simp [hp]
-      · exfalso
-        by_cases he : k ∈ (electedRecs (inputOf s b)).map (·.addr)
-        · obtain ⟨r, hr, e⟩ := List.mem_map.mp he
-          have := bb r hr
-          rw [e] at this
-          change (alookup k v).isNone = true at hk2
-          rw [this] at hk2; simp at hk2
-        · have := c k he hp
-          change (alookup k v).isNone = true at hk2
-          change (alookup k s.vN).isSome = true at hk1
-          rw [this] at hk2
-          cases hx : alookup k s.vN <;> simp [hx] at hk1 hk2
-    · -- i2
-      intro k hk1 hk2
-      show ∃ p, alookup k (applyWrites s.purge (elect (inputOf s b)).purgeW) = some p ∧ s.next + 1 - 2 ≤ p
-      have := hI.i1 k hk1 hk2
-      rw [hpl]
-      by_cases hp : k ∈ (purged (inputOf s b)).map (·.addr)
-      · exact ⟨s.next, by simp [hp], by omega⟩
-      · exact ⟨s.next - 1, by simp [hp, this], by omega⟩
-    · -- i3
-      intro k p hk
-      change alookup k (applyWrites s.purge (elect (inputOf s b)).purgeW) = some p at hk
-      rw [hpl] at hk
-      show 0 < p ∧ p ≤ s.next + 1 - 1
-      by_cases hp : k ∈ (purged (inputOf s b)).map (·.addr)
-      · simp [hp] at hk; omega
-      · simp only [hp, if_false] at hk
-        have := hI.i3 k p hk; omega
-    · exact d
-  · have hl : (inputOf s b).height ≤ 1 := by show s.next ≤ 1; omega
-    have e : elect (inputOf s b) = ⟨[], [], [], [], 0⟩ := elect_low _ hl
-    have hn1 : s.next = 1 := by have := hI.next_pos; omega
-    refine ⟨{ next := s.next + 1, vP := s.vC, vC := s.vN, vN := s.vN, purge := s.purge, status := s.status }, ?_, ?_,
-      rfl, rfl, rfl, fun _ => rfl, fun h' => absurd h' h⟩
-    · unfold step
-      rw [e]
-      simp [tmChanges, TM.apply, TM.validate, applyWrites]
-    · constructor
-      · show 1 ≤ s.next + 1; omega
-      · intro k hk1 hk2
-        exfalso
+      · obtain ⟨r, hr, e⟩ := List.mem_map.mp hp
+        have := a r hr
+        rw [e] at this
+        rw [this] at hk1; simp at hk1
+      · rw [c k he hp] at hk1
+        exact not_isSome_of_isNone hk2 hk1
+  -- a deleted record belongs to no pending set
+  have delOut : ∀ k, k ∈ (elect (inputOf s b)).deleted →
+      (alookup k s.vC).isNone ∧ (alookup k s.vN).isNone ∧ (alookup k v).isNone := by
+    intro k hk
+    obtain ⟨hla, hne, _, x, hx, hact, hh⟩ := deleted_facts (inputOf s b) hI.addrs k hk
+    have hPn : (alookup k s.vP).isNone := by
+      apply isNone_of_not_isSome
+      intro hP
+      exact hla (TM.alookup_isSome_iff.mp hP)
+    have hCn : (alookup k s.vC).isNone := by
+      apply isNone_of_not_isSome
+      intro hC
+      obtain ⟨y, hy, hy2⟩ := hI.m2 k hC hPn
+      have exy : y = x := by
+        have : alookup k s.status = some x := hx
+        rw [this] at hy; cases hy; rfl
+      subst exy
+      have hh' : y.height + 2 < s.next := hh
+      rcases hy2 with h1 | h1
+      · rw [hact] at h1; cases h1
+      · omega
+    have hNn : (alookup k s.vN).isNone := by
+      apply isNone_of_not_isSome
+      intro hN
+      obtain ⟨y, hy, hy2⟩ := hI.m1 k hN hCn
+      have : alookup k s.status = some x := hx
+      rw [this] at hy; cases hy
+      rw [hact] at hy2; cases hy2
+    refine ⟨hCn, hNn, ?_⟩
+    apply isNone_of_not_isSome
+    intro hv
+    obtain ⟨r, hr, e⟩ := newMember k hv hNn
+    exact hne (List.mem_map.mpr ⟨r, hr, e⟩)
+  -- a record that is not deleted is still there after the block
+  have keeps : ∀ r ∈ s.recs, r.addr ∉ (elect (inputOf s b)).deleted →
+      ∃ r' ∈ recsAfter b (elect (inputOf s b)).deleted, r'.addr = r.addr := by
+    intro r hr hnd
+    obtain ⟨r', hr', e⟩ := hB.persist r hr
+    refine ⟨r', ?_, e⟩
+    unfold recsAfter
+    rw [List.mem_filter]
+    refine ⟨hr', ?_⟩
+    simp only [Bool.not_eq_true', List.contains_eq_mem, decide_eq_false_iff_not]
+    rw [e]; exact hnd
+  constructor
+  · show 2 ≤ s.next + 1; omega
+  · -- i1
+    intro k hk1 hk2
+    show alookup k (applyWrites s.purge (elect (inputOf s b)).purgeW) = some (s.next + 1 - 1)
+    rw [hpl]
+    by_cases hp : k ∈ (purged (inputOf s b)).map (·.addr)
+    · simp [hp]
+    · exfalso
+      by_cases he : k ∈ (electedRecs (inputOf s b)).map (·.addr)
+      · obtain ⟨r, hr, e⟩ := List.mem_map.mp he
+        have := bb r hr
+        rw [e] at this
+        change (alookup k v).isNone = true at hk2
+        rw [this] at hk2; simp at hk2
+      · have := c k he hp
+        change (alookup k v).isNone = true at hk2
         change (alookup k s.vN).isSome = true at hk1
-        change (alookup k s.vN).isNone = true at hk2
-        cases hx : alookup k s.vN <;> simp [hx] at hk1 hk2
-      · intro k hk1 hk2
-        exfalso
-        have := hI.i1 k hk1 hk2
-        have := hI.i3 _ _ this
-        omega
-      · intro k p hk
-        have := hI.i3 k p hk
-        show 0 < p ∧ p ≤ s.next + 1 - 1
-        omega
-      · exact hI.i5
+        rw [this] at hk2
+        exact not_isSome_of_isNone hk2 hk1
+  · -- i2
+    intro k hk1 hk2
+    show ∃ p, alookup k (applyWrites s.purge (elect (inputOf s b)).purgeW) = some p ∧ s.next + 1 - 2 ≤ p
+    have := hI.i1 k hk1 hk2
+    rw [hpl]
+    by_cases hp : k ∈ (purged (inputOf s b)).map (·.addr)
+    · exact ⟨s.next, by simp [hp], by omega⟩
+    · exact ⟨s.next - 1, by simp [hp, this], by omega⟩
+  · -- i3
+    intro k p hk
+    change alookup k (applyWrites s.purge (elect (inputOf s b)).purgeW) = some p at hk
+    rw [hpl] at hk
+    show 0 < p ∧ p ≤ s.next + 1 - 1
+    by_cases hp : k ∈ (purged (inputOf s b)).map (·.addr)
+    · simp [hp] at hk; omega
+    · simp only [hp, if_false] at hk
+      have := hI.i3 k p hk; omega
+  · exact d
+  · -- addrs
+    show ((recsAfter b (elect (inputOf s b)).deleted).map (·.addr)).Nodup
+    unfold recsAfter
+    exact (List.filter_sublist.map _).nodup hB.addrs
+  · -- bound
+    intro r' hr'
+    have hr2 : r' ∈ b.after := (List.mem_filter.mp hr').1
+    rcases hB.keys r' hr2 with ⟨r, hr, e1, e2, _⟩ | ⟨e, _⟩
+    · rw [← e2, ← e1]; exact hI.bound r hr
+    · exact e
+  · -- ktype
+    intro r' hr'
+    have hr2 : r' ∈ b.after := (List.mem_filter.mp hr').1
+    rcases hB.keys r' hr2 with ⟨r, hr, _, _, e3⟩ | ⟨_, e⟩
+    · rw [← e3]; exact hI.ktype r hr
+    · exact e
+  · -- m1
+    intro k hk1 hk2
+    obtain ⟨r, hr, e⟩ := newMember k hk1 hk2
+    obtain ⟨x, hx, ha⟩ := status_after_elected (inputOf s b) h hI.addrs r hr
+    exact ⟨x, by rw [← e]; exact hx, ha⟩
+  · -- m2
+    intro k hk1 hk2
+    obtain ⟨x, hx, ha⟩ := hI.m1 k hk1 hk2
+    show ∃ y, alookup k (applyWrites s.status (elect (inputOf s b)).statusW) = some y ∧
+      (y.active = true ∨ s.next + 1 - 1 ≤ y.height)
+    rcases status_after_cases (inputOf s b) h k with e | ⟨y, hy, hh⟩
+    · exact ⟨x, by rw [show (inputOf s b).status = s.status from rfl] at e; rw [e]; exact hx, Or.inl ha⟩
+    · refine ⟨y, hy, Or.inr ?_⟩
+      have : y.height = s.next := hh
+      omega
+  · -- recd
+    intro k hk
+    have inOld : ((alookup k s.vC).isSome ∨ (alookup k s.vN).isSome) → ∃ r' ∈ recsAfter b (elect (inputOf s b)).deleted, r'.addr = k := by
+      intro hk'
+      obtain ⟨r, hr, e⟩ := hI.recd k (Or.inr hk')
+      have hnd : r.addr ∉ (elect (inputOf s b)).deleted := by
+        rw [e]
+        intro hd
+        obtain ⟨d1, d2, _⟩ := delOut k hd
+        rcases hk' with h' | h'
+        · exact not_isSome_of_isNone d1 h'
+        · exact not_isSome_of_isNone d2 h'
+      obtain ⟨r', hr', e'⟩ := keeps r hr hnd
+      exact ⟨r', hr', by rw [e', e]⟩
+    rcases hk with hk | hk | hk
+    · exact inOld (Or.inl hk)
+    · exact inOld (Or.inr hk)
+    · by_cases hN : (alookup k s.vN).isSome = true
+      · exact inOld (Or.inr hN)
+      · obtain ⟨r, hr, e⟩ := newMember k hk (isNone_of_not_isSome hN)
+        have hnd : r.addr ∉ (elect (inputOf s b)).deleted := by
+          rw [e]
+          intro hd
+          exact not_isSome_of_isNone (delOut k hd).2.2 hk
+        obtain ⟨r', hr', e'⟩ := keeps r (mem_electedRecs hr).1 hnd
+        exact ⟨r', hr', by rw [e', e]⟩
 
 /-- side conditions along a whole history -/
 def SideAll (addrOf : Nat → Nat) : Chain → List BlockIn → Prop
   | _, [] => True
   | s, b :: bs => BlockOK addrOf s b ∧ ∀ s', step addrOf s b = .ok s' → SideAll addrOf s' bs
 
-theorem run_ok (addrOf : Nat → Nat) (bs : List BlockIn) (s : Chain) (hI : Inv s) (hS : SideAll addrOf s bs) :
-    ∃ s', run addrOf s bs = .ok s' ∧ Inv s' := by
+theorem run_ok (addrOf : Nat → Nat) (bs : List BlockIn) (s : Chain) (hI : Inv addrOf s)
+    (hS : SideAll addrOf s bs) : ∃ s', run addrOf s bs = .ok s' ∧ Inv addrOf s' := by
   induction bs generalizing s with
   | nil => exact ⟨s, rfl, hI⟩
   | cons b t ih =>
@@ -1754,38 +2151,52 @@ theorem run_ok (addrOf : Nat → Nat) (bs : List BlockIn) (s : Chain) (hI : Inv 
     obtain ⟨s2, ok2, hI2⟩ := ih s1 hI1 (hrest s1 ok)
     exact ⟨s2, by unfold run; rw [ok]; exact ok2, hI2⟩
 
-/-- the chain right after genesis: the three sets are the genesis set -/
-def genesisChain (g : TM.VSet) : Chain := ⟨1, g, g, g, [], []⟩
+/-- the chain after block 1 (which returns no updates): the sets of blocks 1, 2, 3 are the genesis
+    set, the committed records are the genesis stakes plus what block 1 did -/
+def startChain (g : TM.VSet) (recs : List Rec) : Chain := ⟨2, g, g, g, [], [], recs⟩
 
-theorem inv_genesis (g : TM.VSet) (hg : ∀ x ∈ g, 0 ≤ x.2) : Inv (genesisChain g) := by
+/-- what the genesis document has to provide (InitChain checks none of it except `members`) -/
+structure GenesisOK (addrOf : Nat → Nat) (g : TM.VSet) (recs : List Rec) : Prop where
+  pow : ∀ x ∈ g, 0 ≤ x.2
+  addrs : (recs.map (·.addr)).Nodup
+  bound : Bound addrOf recs
+  ktype : ∀ r ∈ recs, r.ktype = 0
+  members : ∀ a, (alookup a g).isSome → ∃ r ∈ recs, r.addr = a
+
+theorem inv_start (addrOf : Nat → Nat) (g : TM.VSet) (recs : List Rec) (hg : GenesisOK addrOf g recs) :
+    Inv addrOf (startChain g recs) := by
+  have contra : ∀ a, (alookup a g).isSome → (alookup a g).isNone → False := fun a h1 h2 =>
+    not_isSome_of_isNone h2 h1
   constructor
-  · show (1 : Int) ≤ 1; omega
-  · intro a h1 h2
-    exfalso
-    change (alookup a g).isSome = true at h1
-    change (alookup a g).isNone = true at h2
-    cases hx : alookup a g <;> simp [hx] at h1 h2
-  · intro a h1 h2
-    exfalso
-    change (alookup a g).isSome = true at h1
-    change (alookup a g).isNone = true at h2
-    cases hx : alookup a g <;> simp [hx] at h1 h2
-  · intro a p h
-    simp [genesisChain] at h
-  · exact hg
+  · show (2 : Int) ≤ 2; omega
+  · intro a h1 h2; exact (contra a h1 h2).elim
+  · intro a h1 h2; exact (contra a h1 h2).elim
+  · intro a p h; simp [startChain] at h
+  · exact hg.pow
+  · exact hg.addrs
+  · exact hg.bound
+  · exact hg.ktype
+  · intro a h1 h2; exact (contra a h1 h2).elim
+  · intro a h1 h2; exact (contra a h1 h2).elim
+  · intro a h
+    rcases h with h | h | h <;> exact hg.members a h
 
-/-! ### D.3 constant records: the set converges to the election -/
+/-! ### D.4 quiet blocks: the set converges to the election -/
 
-/-- the election of a block's records (it does not depend on the chain's bookkeeping) -/
-def electionOf (b : BlockIn) : List Rec := electedRecs ⟨2, b.minSelf, b.top, b.recs, [], b.malicious, [], []⟩
+/-- the election of committed records under a block's options and malicious set -/
+def electionOf (recs : List Rec) (b : BlockIn) : List Rec :=
+  electedRecs ⟨2, b.minSelf, b.top, recs, [], b.malicious, [], [], []⟩
 
-theorem electedRecs_inputOf (s : Chain) (b : BlockIn) : electedRecs (inputOf s b) = electionOf b := rfl
+theorem electedRecs_inputOf (s : Chain) (b : BlockIn) : electedRecs (inputOf s b) = electionOf s.recs b := rfl
 
 /-- the voting power the election gives an address -/
-def electionMap (b : BlockIn) (a : Nat) : Option Int := (findRec (electionOf b) a).map (·.power)
+def electionMap (recs : List Rec) (b : BlockIn) (a : Nat) : Option Int :=
+  (findRec (electionOf recs b) a).map (·.power)
 
-/-- a record that is not elected, was active in the last commit and is not guarded is purged -/
-theorem purged_complete (inp : Input) (hn : (inp.recs.map (·.addr)).Nodup) (r : Rec) (hr : r ∈ inp.recs)
+/-- a record that is not elected, was active in the last commit and is not guarded is purged —
+    as long as somebody is elected -/
+theorem purged_complete (inp : Input) (hn : (inp.recs.map (·.addr)).Nodup) (hE : electedRecs inp ≠ [])
+    (r : Rec) (hr : r ∈ inp.recs)
     (hne : r ∉ electedRecs inp) (hla : r.addr ∈ inp.lastActive) (hg : guarded inp r.addr = false) :
     r ∈ purged inp := by
   have hsplit := runLoop_split inp hn
@@ -1797,7 +2208,14 @@ theorem purged_complete (inp : Input) (hn : (inp.recs.map (·.addr)).Nodup) (r :
     rcases List.mem_append.mp (hsplit.mem_iff.mpr hr) with h | h
     · exact absurd h hne
     · exact h
-  unfold purged
+  have hc : ¬ (runLoop inp).cnt = 0 := by
+    rw [runLoop_cnt]
+    cases hl : electedRecs inp with
+    | nil => exact absurd hl hE
+    | cons _ _ => simp only [List.length_cons]; omega
+  rw [purged_eq]
+  simp only [hc, if_false]
+  unfold purgedRaw
   rw [foldl_purgeStep]
   simp only [List.nil_append, List.mem_filterMap]
   refine ⟨r.addr, (mem_sortKeys _ _).mpr hla, ?_⟩
@@ -1812,20 +2230,28 @@ theorem findRec_none {recs : List Rec} {a : Nat} (h : a ∉ recs.map (·.addr)) 
   intro e
   exact h (List.mem_map.mpr ⟨r, hr, e⟩)
 
-/-- one block of a quiet period, seen from one address -/
-theorem conv_step (addrOf : Nat → Nat) (s : Chain) (b : BlockIn) (hI : Inv s) (hB : BlockOK addrOf s b)
-    (h : 1 < s.next) :
-    ∃ s', step addrOf s b = .ok s' ∧ Inv s' ∧ s'.next = s.next + 1 ∧ s'.vP = s.vC ∧ s'.vC = s.vN ∧
-      (∀ r ∈ electionOf b, alookup r.addr s'.vN = some r.power) ∧
-      (∀ a, a ∉ (electionOf b).map (·.addr) → alookup a s.vN = none → alookup a s'.vN = none) ∧
-      (∀ a, a ∉ (electionOf b).map (·.addr) → alookup a s'.vN ≠ none →
+/-- a quiet block: no transaction touched a record and the hook deleted none -/
+def Quiet (s : Chain) (b : BlockIn) : Prop := b.after = s.recs ∧ (elect (inputOf s b)).deleted = []
+
+/-- one quiet block, seen from one address -/
+theorem conv_step (addrOf : Nat → Nat) (s : Chain) (b : BlockIn) (hI : Inv addrOf s) (hB : BlockOK addrOf s b)
+    (hQ : Quiet s b) (hE : electionOf s.recs b ≠ []) :
+    ∃ s', step addrOf s b = .ok s' ∧ Inv addrOf s' ∧ s'.next = s.next + 1 ∧ s'.vP = s.vC ∧ s'.vC = s.vN ∧
+      s'.recs = s.recs ∧
+      (∀ r ∈ electionOf s.recs b, alookup r.addr s'.vN = some r.power) ∧
+      (∀ a, a ∉ (electionOf s.recs b).map (·.addr) → alookup a s.vN = none → alookup a s'.vN = none) ∧
+      (∀ a, a ∉ (electionOf s.recs b).map (·.addr) → alookup a s'.vN ≠ none →
         alookup a s'.vN = alookup a s.vN ∧ alookup a s'.purge = alookup a s.purge ∧
-        ((∃ r ∈ b.recs, r.addr = a) → (alookup a s.vP).isSome →
+        ((∃ r ∈ s.recs, r.addr = a) → (alookup a s.vP).isSome →
           0 < (alookup a s.purge).getD 0 ∧ s.next ≤ (alookup a s.purge).getD 0 + 2)) := by
-  obtain ⟨s', ok, hI', e1, e2, e3, _, hchar⟩ := step_ok addrOf s b hI hB
-  obtain ⟨ca, cb, cc, cp⟩ := hchar h
+  obtain ⟨s', ok, hI', e1, e2, e3, er, ca, cb, cc, cp⟩ := step_ok addrOf s b hI hB
   rw [electedRecs_inputOf] at cb cc
-  refine ⟨s', ok, hI', e1, e2, e3, cb, ?_, ?_⟩
+  have hrecs : s'.recs = s.recs := by
+    rw [er, hQ.2]
+    unfold recsAfter
+    rw [hQ.1]
+    simp
+  refine ⟨s', ok, hI', e1, e2, e3, hrecs, cb, ?_, ?_⟩
   · intro a ha hnone
     by_cases hp : a ∈ (purged (inputOf s b)).map (·.addr)
     · obtain ⟨r, hr, e⟩ := List.mem_map.mp hp
@@ -1848,7 +2274,7 @@ theorem conv_step (addrOf : Nat → Nat) (s : Chain) (b : BlockIn) (hI : Inv s) 
         rw [era]; exact TM.alookup_isSome_iff.mp hP
       by_cases hg : guarded (inputOf s b) r.addr = false
       · exfalso
-        have := purged_complete (inputOf s b) hB.addrs r hr hne hla hg
+        have := purged_complete (inputOf s b) hI.addrs (by rw [electedRecs_inputOf]; exact hE) r hr hne hla hg
         exact hp (List.mem_map.mpr ⟨r, this, era⟩)
       · have hg' : guarded (inputOf s b) r.addr = true := by
           cases hx : guarded (inputOf s b) r.addr <;> simp [hx] at hg ⊢
@@ -1858,47 +2284,55 @@ theorem conv_step (addrOf : Nat → Nat) (s : Chain) (b : BlockIn) (hI : Inv s) 
             (inputOf s b).height ≤ (alookup a (inputOf s b).purge).getD 0 + 2 := by simpa using hg'
         exact hg2
 
-/-- CONVERGENCE: five blocks with the same records, malicious set and options from any state that
-    satisfies the invariant, where every member of the pending set has a record: afterwards the
-    three sets are exactly the election -/
-theorem converge5 (addrOf : Nat → Nat) (s0 : Chain) (b : BlockIn) (hI : Inv s0) (h1 : 1 < s0.next)
-    (hS : SideAll addrOf s0 [b, b, b, b, b])
-    (hrec : ∀ a, (alookup a s0.vN).isSome → ∃ r ∈ b.recs, r.addr = a) :
-    ∃ s5, run addrOf s0 [b, b, b, b, b] = .ok s5 ∧
-      ∀ a, alookup a s5.vP = electionMap b a ∧ alookup a s5.vC = electionMap b a ∧
-        alookup a s5.vN = electionMap b a := by
-  obtain ⟨hB0, hS1⟩ := hS
-  obtain ⟨s1, ok0, hI1, n1, p1, c1, A1, B1, C1⟩ := conv_step addrOf s0 b hI hB0 h1
-  obtain ⟨hB1, hS2⟩ := hS1 s1 ok0
-  obtain ⟨s2, ok1, hI2, n2, p2, c2, A2, B2, C2⟩ := conv_step addrOf s1 b hI1 hB1 (by omega)
-  obtain ⟨hB2, hS3⟩ := hS2 s2 ok1
-  obtain ⟨s3, ok2, hI3, n3, p3, c3, A3, B3, C3⟩ := conv_step addrOf s2 b hI2 hB2 (by omega)
-  obtain ⟨hB3, hS4⟩ := hS3 s3 ok2
-  obtain ⟨s4, ok3, hI4, n4, p4, c4, A4, B4, C4⟩ := conv_step addrOf s3 b hI3 hB3 (by omega)
-  obtain ⟨hB4, _⟩ := hS4 s4 ok3
-  obtain ⟨s5, ok4, hI5, n5, p5, c5, A5, B5, C5⟩ := conv_step addrOf s4 b hI4 hB4 (by omega)
-  refine ⟨s5, by simp only [run, ok0, ok1, ok2, ok3, ok4], ?_⟩
-  -- distinct addresses among the elected
-  have hEn : ((electionOf b).map (·.addr)).Nodup := by
-    have := elected_purged_addr_nodup (inputOf s0 b) hB0.addrs
+/-- quiet side conditions along a run of the same block -/
+def QuietAll (addrOf : Nat → Nat) (b : BlockIn) : Chain → Nat → Prop
+  | _, 0 => True
+  | s, n + 1 => BlockOK addrOf s b ∧ Quiet s b ∧ ∀ s', step addrOf s b = .ok s' → QuietAll addrOf b s' n
+
+/-- CONVERGENCE: five quiet blocks from any state that satisfies the invariant, with somebody to
+    elect: afterwards the three pending sets are exactly the election -/
+theorem converge5 (addrOf : Nat → Nat) (s0 : Chain) (b : BlockIn) (hI : Inv addrOf s0)
+    (hS : QuietAll addrOf b s0 5) (hE : electionOf s0.recs b ≠ []) :
+    ∃ s5, run addrOf s0 [b, b, b, b, b] = .ok s5 ∧ s5.recs = s0.recs ∧
+      ∀ a, alookup a s5.vP = electionMap s0.recs b a ∧ alookup a s5.vC = electionMap s0.recs b a ∧
+        alookup a s5.vN = electionMap s0.recs b a := by
+  obtain ⟨hB0, hQ0, hS1⟩ := hS
+  obtain ⟨s1, ok0, hI1, n1, p1, c1, r1, A1, B1, C1⟩ := conv_step addrOf s0 b hI hB0 hQ0 hE
+  obtain ⟨hB1, hQ1, hS2⟩ := hS1 s1 ok0
+  obtain ⟨s2, ok1, hI2, n2, p2, c2, r2, A2, B2, C2⟩ := conv_step addrOf s1 b hI1 hB1 hQ1 (by rw [r1]; exact hE)
+  obtain ⟨hB2, hQ2, hS3⟩ := hS2 s2 ok1
+  obtain ⟨s3, ok2, hI3, n3, p3, c3, r3, A3, B3, C3⟩ := conv_step addrOf s2 b hI2 hB2 hQ2 (by rw [r2, r1]; exact hE)
+  obtain ⟨hB3, hQ3, hS4⟩ := hS3 s3 ok2
+  obtain ⟨s4, ok3, hI4, n4, p4, c4, r4, A4, B4, C4⟩ := conv_step addrOf s3 b hI3 hB3 hQ3 (by rw [r3, r2, r1]; exact hE)
+  obtain ⟨hB4, hQ4, _⟩ := hS4 s4 ok3
+  obtain ⟨s5, ok4, hI5, n5, p5, c5, r5, A5, B5, C5⟩ := conv_step addrOf s4 b hI4 hB4 hQ4 (by rw [r4, r3, r2, r1]; exact hE)
+  have R1 : s1.recs = s0.recs := r1
+  have R2 : s2.recs = s0.recs := by rw [r2, r1]
+  have R3 : s3.recs = s0.recs := by rw [r3, R2]
+  have R4 : s4.recs = s0.recs := by rw [r4, R3]
+  rw [R1] at A2 B2 C2
+  rw [R2] at A3 B3 C3
+  rw [R3] at A4 B4 C4
+  rw [R4] at A5 B5 C5
+  refine ⟨s5, by simp only [run, ok0, ok1, ok2, ok3, ok4], by rw [r5, R4], ?_⟩
+  have hEn : ((electionOf s0.recs b).map (·.addr)).Nodup := by
+    have := elected_purged_addr_nodup (inputOf s0 b) hI.addrs
     rw [List.map_append, List.nodup_append, electedRecs_inputOf] at this
     exact this.1
   intro a
-  -- s5.vP = s3.vN, s5.vC = s4.vN
   have eP : s5.vP = s3.vN := by rw [p5, c4]
   have eC : s5.vC = s4.vN := c5
   rw [eP, eC]
-  by_cases ha : a ∈ (electionOf b).map (·.addr)
+  by_cases ha : a ∈ (electionOf s0.recs b).map (·.addr)
   · obtain ⟨r, hr, e⟩ := List.mem_map.mp ha
-    have hm : electionMap b a = some r.power := by
+    have hm : electionMap s0.recs b a = some r.power := by
       unfold electionMap
       rw [← e, findRec_self hEn hr]; rfl
     rw [hm, ← e]
     exact ⟨A3 r hr, A4 r hr, A5 r hr⟩
-  · have hm : electionMap b a = none := by
+  · have hm : electionMap s0.recs b a = none := by
       unfold electionMap; rw [findRec_none ha]; rfl
     rw [hm]
-    -- the set of block next+4 (s3.vN) no longer holds a
     have key : alookup a s3.vN = none := by
       apply Classical.byContradiction
       intro hne3
@@ -1910,9 +2344,10 @@ theorem converge5 (addrOf : Nat → Nat) (s0 : Chain) (b : BlockIn) (hI : Inv s0
       have hne0 : alookup a s0.vN ≠ none := by rw [← e10]; exact hne1
       have hsome0 : (alookup a s0.vN).isSome := by
         cases hx : alookup a s0.vN <;> simp [hx] at hne0 ⊢
-      -- at block next+2 the voters are s0.vN
       have hvP : s2.vP = s0.vN := by rw [p2, c1]
-      have := g2 (hrec a hsome0) (by rw [hvP]; exact hsome0)
+      -- every member of the pending set has a record (invariant), and the records are constant
+      have hrec : ∃ r ∈ s0.recs, r.addr = a := hI.recd a (Or.inr (Or.inr hsome0))
+      have := g2 hrec (by rw [hvP]; exact hsome0)
       rw [q21, q10] at this
       cases hx : alookup a s0.purge with
       | none => rw [hx] at this; simp at this
